@@ -122,7 +122,7 @@ func configShape() ([]cfgLeaf, []cfgLevel) {
 	return leaves, levels
 }
 
-var c16Values = []string{"plain", "${V}", "pre-$V-post", "  $E  ", "  padded  "}
+var c16Values = []string{"plain", "${V}", "pre-$V-post", "  $E  ", "  padded  ", "${project.version}/${dist-name}"}
 
 // c16ValuesThorough: further shapes - a bare variable name, brace/percent look-alikes, doubled and adjacent
 // references, '$' at the end, an unset variable, references padded with blanks, non-ASCII text.
@@ -169,7 +169,7 @@ func init() {
 			envs := []struct {
 				env  map[string]string
 				nilm bool
-			}{{map[string]string{"V": "val"}, false}, {map[string]string{"V": ""}, false}, {nil, true}}
+			}{{map[string]string{"V": "val", "project.version": "pv", "dist-name": "dn"}, false}, {map[string]string{"V": ""}, false}, {nil, true}}
 			for _, lf := range leaves {
 				switch lf.Kind {
 				case "string", "strptr", "strlist", "strmap":
@@ -191,7 +191,7 @@ func init() {
 				for _, ex := range []string{"true", "false", "absent"} {
 					for _, v := range c16Values {
 						for _, kind := range []string{"", "dir", "ghost", "symlink", "dst-only"} {
-							if !yield(C16Case{Part: "contents-expand", Path: where, Value: v, Expand: ex, Env: map[string]string{"V": "val"}, Kind: kind}) {
+							if !yield(C16Case{Part: "contents-expand", Path: where, Value: v, Expand: ex, Env: map[string]string{"V": "val", "project.version": "pv", "dist-name": "dn"}, Kind: kind}) {
 								return
 							}
 						}
@@ -273,7 +273,7 @@ func init() {
 					switch lf.Kind {
 					case "string", "strptr", "strlist", "strmap":
 						for _, v := range []string{"${V}", "  padded  ", "  $E  "} {
-							if !yield(C16Case{Part: "expand", Path: lf.Path, Kind: lf.Kind, Value: v, Env: map[string]string{"V": "val"}, Fmt: f}) {
+							if !yield(C16Case{Part: "expand", Path: lf.Path, Kind: lf.Kind, Value: v, Env: map[string]string{"V": "val", "project.version": "pv", "dist-name": "dn"}, Fmt: f}) {
 								return
 							}
 						}
@@ -281,7 +281,7 @@ func init() {
 				}
 				for _, ex := range []string{"true", "false", "absent"} {
 					for _, v := range c16Values {
-						if !yield(C16Case{Part: "contents-expand", Path: []string{"overrides", "{fmt}", "contents"}, Value: v, Expand: ex, Env: map[string]string{"V": "val"}, Fmt: f}) {
+						if !yield(C16Case{Part: "contents-expand", Path: []string{"overrides", "{fmt}", "contents"}, Value: v, Expand: ex, Env: map[string]string{"V": "val", "project.version": "pv", "dist-name": "dn"}, Fmt: f}) {
 							return
 						}
 					}
